@@ -44,7 +44,7 @@ def attack_streams(quick):
             out.append(("%s.%s" % (bname, lab), bname, base[:12] + v.to_bytes(4, "big") + base[16:]))
         out.append(("%s.alen=5" % bname, bname, base[:16] + (5).to_bytes(4, "big") + base[20:]))
         out.append(("%s.alen=8+chunk-overrun" % bname, bname, base[:16] + (8).to_bytes(4, "big") + base[20:40] + b"ABCD\x00\x00\xff\xff" + base[40:]))
-        for t in TRUNC:
+        for t in (TRUNC if quick else sorted(set(TRUNC) | set(range(0, len(base))))):      # thorough: every prefix
             cut = base[:t] if t >= 0 else base[:-1]
             out.append(("%s.trunc@%d" % (bname, t), bname, cut))
         out.append(("%s.payload-garbage" % bname, bname, base[:40] + bytes((b * 7 + 1) % 256 for b in range(len(base) - 40))))
@@ -264,6 +264,8 @@ def configs(quick):
                             p, r = 1, 1
                     else:
                         p, r = (1, 2) if server == "multiplex" or pool == "full" else (1, 1)
+                        if ".trunc@" in lab and int(lab.split("@")[1]) not in TRUNC:
+                            p, r = 0, 0      # the additional prefixes of the thorough tier: default schedule
                     out.append({"server": server, "timeout": timeout, "pool": pool, "stream": lab, "phase": phase, "ending": ending, "p": p, "r": r, "horizon": 3000})
     return out
 
